@@ -341,6 +341,29 @@ fn signature_cases(out: &mut Vec<Case>) {
             out.push(Case { text: format!("def ff({}){} {{ }}", ps.join(", "), rsp), tag: format!("def/{}/{}", np, ret), expect, bad_width: None, gates: Some(vec![]), def_ret: Some(("ff".into(), rty)), nontrivial: true });
         }
     }
+    // a parameter that repeats the name of an earlier one is diagnosed as a redeclaration, and
+    // still counts: the recorded parameter count is the number of parameters written
+    for np in 2..=4usize {
+        for i in 0..np {
+            for j in i + 1..np {
+                let mut ps = Vec::new();
+                for k in 0..np {
+                    let b = ptypes[k % ptypes.len()];
+                    let (sp, _) = spell(b, 8 + k as u32, false);
+                    ps.push(format!("{} pa{}", sp, if k == j { i } else { k }));
+                }
+                out.push(Case {
+                    text: format!("def ff({}) {{ }}", ps.join(", ")),
+                    tag: format!("def-repeated-param/{}/{}={}", np, j, i),
+                    expect: vec![("ff".into(), Type::SubroutineDef(SubroutineDef { num_params: np, return_type: Box::new(Type::Void) }))],
+                    bad_width: None,
+                    gates: Some(vec![]),
+                    def_ret: Some(("ff".into(), Type::Void)),
+                    nontrivial: true,
+                });
+            }
+        }
+    }
     // designators of parameter and return types given by a const identifier, also when a
     // parameter of the subroutine has that very name (the signature is resolved outside it)
     for w in [4u32, 8, 16] {
